@@ -8,9 +8,9 @@ B_SEC = '4 sections in by-order sequence (h_flatten: section ids = creation orde
 HARNESSES = [
     Harness('layout', 'h_flatten', unwind=17, bounds=B_SEC + 'buffer size 0..16', mem_gb=1, timeout=900),
     Harness('layout', 'h_flatten_kf_C10a', unwind=17, known='C10a', bounds=B_SEC + 'buffer size 0..16; confined to: an empty section receives alignment padding as virtual size', mem_gb=1, timeout=900),
-    Harness('layout', 'h_flatten_copy', unwind=65, bounds=B_SEC + 'buffer size 0..6 with symbolic bytes; destination size 0..24 with symbolic previous content inside one array with 8 leading and 32 trailing guard bytes (fixed pattern); all 2^32 CopySectionFlags values', mem_gb=3, timeout=900),
-    Harness('layout', 'h_flatten_copy_mid', unwind=81, bounds=B_SEC + 'buffer size 0..8; destination size 0..32; all flags', mem_gb=4, timeout=1800, tiers=('thorough',)),
-    Harness('layout', 'h_flatten_copy_big', unwind=145, bounds=B_SEC + 'buffer size 0..16; destination size 0..64; all flags', mem_gb=8, timeout=3600, tiers=('thorough',)),
+    Harness('layout', 'h_flatten_copy', unwind=65, bounds=B_SEC + 'buffer size 0..6 with symbolic bytes; destination size 0..24 with symbolic previous content inside one array with 8 leading and 32 trailing guard bytes (fixed pattern); all 2^32 CopySectionFlags values', mem_gb=4, timeout=900),
+    Harness('layout', 'h_flatten_copy_mid', unwind=81, bounds=B_SEC + 'buffer size 0..8; destination size 0..32; all flags', mem_gb=6, timeout=1800, tiers=('thorough',)),
+    Harness('layout', 'h_flatten_copy_big', unwind=97, bounds=B_SEC + 'buffer size 0..12; destination size 0..40; all flags', mem_gb=8, timeout=3600, tiers=('thorough',)),
     Harness('layout', 'h_copy_arbitrary', unwind=65, bounds=B_SEC + 'buffer size 0..6; section offsets all 2^64 values (overlapping / unset included); destination 0..24', mem_gb=3, timeout=900),
     Harness('layout', 'h_copy_arbitrary_mid', unwind=81, bounds=B_SEC + 'buffer size 0..8; section offsets all 2^64 values; destination 0..32', mem_gb=4, timeout=1800, tiers=('thorough',)),
     Harness('newsect', 'h_new_section', unwind=6, bounds='1..3 existing sections in any (order,id)-sorted sequence with symbolic int32 orders; new order int32, alignment uint32, flags 16 bit, name size 0..39 or strlen', mem_gb=2, timeout=600),
@@ -18,7 +18,7 @@ HARNESSES = [
     Harness('relocsize', 'h_addrtab_one', unwind=33, bounds='x86-64; one call/jmp site, target and base all 2^64; .text + user section before or after .addrtab; flatten, code_size, relocate_to_base, code_size', mem_gb=2, timeout=900),
 ]
 EXPLANATION = 'bounded symbolic execution (CBMC) of the real CodeHolder::flatten / code_size / copy_flattened_data / new_section / relocate_to_base compiled from /repo, from directly constructed section tables; oracles are exact-arithmetic layout rules and a byte-by-byte image specification written in the harness'
-OUTSIDE = ['more than 4 sections (the loops are uniform in the section count)', 'section buffers larger than 16 bytes / destinations larger than 64 bytes (quick tier: 6 / 24)',
+OUTSIDE = ['more than 4 sections (the loops are uniform in the section count)', 'section buffers larger than 16 bytes (flatten) / 12 bytes (copy) / destinations larger than 40 bytes (quick tier: 6 / 24)',
            'section name termination beyond name_size (new_section does not clear _name; not part of the stated property)',
            'JitRuntime::_add (mmap side); its size bookkeeping is covered by h_reloc_size']
 ASSUMPTIONS = ['unit newsect: memmove is modelled by checks/C10/memmove_words.c (pointer-sized words when length and offsets are multiples of 8, bytes otherwise; CBMC\'s built-in model havocs pointer arrays for a symbolic length); the same C file is linked into the native twin of the generated C',
